@@ -7,6 +7,8 @@ every block size and merge limit.
 import PrecondVerif.Lemmas.Shapes
 import PrecondVerif.Lemmas.Partition
 import PrecondVerif.Lemmas.Blockify
+import PrecondVerif.Lemmas.PartitionIdx
+import PrecondVerif.Lemmas.BlockifyIdx
 
 namespace PrecondVerif.C06
 open PrecondVerif.Shapes
@@ -221,6 +223,157 @@ theorem exponent_spec (pt : PType) (rank : Nat) :
   · split <;> simp
   · split <;> simp
 
+
+/-! ### second round: where every entry goes -/
+
+/-- **Blocks are contiguous sub-tensors.** Block number `k` of `BlockPartitioner.partition` — `k` counted in
+`itertools.product` order of the per-axis pieces, first axis slowest: `blockCoords k` are the row-major digits of
+`k` in the grid of piece counts — is exactly `t[o_1 : o_1+s_1, …, o_r : o_r+s_r]`, where `(o_a, s_a)` is the
+`k_a`-th (prefix sum, size) of the split of axis `a`: its shape is `blockDims k`, its entry at `idx` is the
+tensor's entry at `blockOffsets k + idx`, and no side of a split axis exceeds the block size. -/
+theorem partition_contiguous {α} (t : Tensor α) (b k : Nat) (hk : k < (partition t b).length) :
+    ((partition t b)[k]).shape = blockDims t.shape b k ∧
+    (∀ idx : List Nat, idx.length = t.shape.length →
+      ((partition t b)[k]).get idx = t.get (addOff (blockOffsets t.shape b k) idx)) ∧
+    (∀ a, a < t.shape.length → 0 < b → b < t.shape.getD a 0 → (blockDims t.shape b k).getD a 0 ≤ b) := by
+  have hk' : k < prod (blockGrid t.shape b) := by rw [← partition_length]; exact hk
+  obtain ⟨blk, e, hs, hg⟩ := partition_getElem? t b k hk'
+  rw [List.getElem?_eq_getElem hk] at e
+  simp only [Option.some.injEq] at e
+  rw [e]
+  refine ⟨hs, hg, ?_⟩
+  intro a ha hb hd
+  have hl : a < (blockCoords t.shape b k).length := by
+    simp [blockCoords, unravel_length_eq, blockGrid_length, ha]
+  have : (blockDims t.shape b k).getD a 0 =
+      (splitSizes (t.shape.getD a 0) b).getD ((blockCoords t.shape b k).getD a 0) 0 := by
+    simp [blockDims, List.getD_eq_getElem?_getD, List.getElem?_zipWith, ha, hl]
+  rw [this, List.getD_eq_getElem?_getD]
+  cases h : (splitSizes (t.shape.getD a 0) b)[(blockCoords t.shape b k).getD a 0]? with
+  | none => simp
+  | some s =>
+    simp only [Option.getD_some]
+    exact split_le_block _ b hb hd s (List.mem_of_getElem? h)
+
+/-- number of blocks = product of the per-axis piece counts (all axes; an unsplit axis counts 1) -/
+theorem partition_count_grid {α} (t : Tensor α) (b : Nat) :
+    (partition t b).length = prod (blockGrid t.shape b) := partition_length t b
+
+/-- **The blocks tile the tensor**: every in-bounds entry lies in exactly one block — `locateBlock` finds the
+block number and the index inside the block, and any other (block, index) pair reaching the entry is that one. -/
+theorem partition_blocks_tile (shape : List Nat) (b : Nat) (idx : List Nat) (hi : inBounds shape idx) :
+    (locateBlock shape b idx).1 < prod (blockGrid shape b) ∧
+    inBounds (blockDims shape b (locateBlock shape b idx).1) (locateBlock shape b idx).2 ∧
+    addOff (blockOffsets shape b (locateBlock shape b idx).1) (locateBlock shape b idx).2 = idx ∧
+    ∀ k j, k < prod (blockGrid shape b) → inBounds (blockDims shape b k) j →
+      addOff (blockOffsets shape b k) j = idx →
+      k = (locateBlock shape b idx).1 ∧ j = (locateBlock shape b idx).2 :=
+  locateBlock_spec shape b idx hi
+
+/-- every entry of every block is an entry of the tensor (no block reaches outside) -/
+theorem partition_block_inside (shape : List Nat) (b k : Nat) (j : List Nat)
+    (hk : k < prod (blockGrid shape b)) (hj : inBounds (blockDims shape b k) j) :
+    inBounds shape (addOff (blockOffsets shape b k) j) := block_entry_inBounds shape b k j hk hj
+
+/-- `merge_partitions` of ANY blocks that agree entry-wise with the blocks of `partition t` (e.g. blocks
+transformed by something that is the identity) succeeds and returns `t`. -/
+theorem merge_partition_congr {α} [Inhabited α] (t : Tensor α) (b : Nat) (parts : List (Tensor α))
+    (h : List.Forall₂ Tensor.Eqv parts (partition t b)) :
+    ∃ u, mergePartitions t.shape b parts = some u ∧ u.Eqv t := mergePartitions_of_eqv t b parts h
+
+/-- **`partition ∘ merge_partitions = id`**: merging any list of blocks with the announced shapes succeeds, and
+partitioning the result returns the blocks (shape and every in-bounds entry). -/
+theorem partition_merge_id {α} [Inhabited α] (shape : List Nat) (b : Nat) (parts : List (Tensor α))
+    (hs : parts.map (·.shape) = cartesian (splitAll shape b)) :
+    ∃ u, mergePartitions shape b parts = some u ∧ u.shape = shape ∧
+      List.Forall₂ Tensor.Eqv (partition u b) parts := partition_mergePartitions shape b parts hs
+
+/-- **Announced preconditioners agree with the blocks produced** (ALL / INPUT / OUTPUT, any compression rank):
+the shapes of the blocks `partition` returns are, in order, `itertools.product(*split_sizes)`;
+`shapes_for_preconditioners` is, block by block in that order, the list of `[d, precond_dim d]` over the dims `d`
+of THAT block at the axes `should_precondition_dims` flags; so there are (#blocks × #preconditioned axes) of
+them. -/
+theorem precond_shapes_agree_with_blocks {α} (pt : PType) (r : Nat) (t : Tensor α) (b : Nat) :
+    (partition t b).map (·.shape) = cartesian (splitAll t.shape b) ∧
+    shapesForPreconditioners pt r t.shape b =
+      ((partition t b).flatMap fun blk =>
+        (selectDims blk.shape (shouldPreconditionDims pt blk.shape.length)).map fun d => (d, precondDim r d)) ∧
+    (∀ blk ∈ partition t b, blk.shape.length = t.shape.length) ∧
+    (shapesForPreconditioners pt r t.shape b).length =
+      (partition t b).length * numPreconditioned pt t.shape.length := by
+  refine ⟨partition_shapes t b, ?_, partition_shape_length t b, shapesForPreconditioners_length pt r t b⟩
+  rw [shapesForPreconditioners_eq_blocks]
+  congr 1
+  funext blk
+  rw [blockPrecondDims_eq_select]
+
+/-- shape of the Tearfree blockified array: `block_sizes` with `num_blocks` inserted at the blocks axis; no side
+of a block exceeds the block size. -/
+theorem blockify_shape {α} (t : Tensor α) (b : Nat) (hb : 0 < b)
+    (hle : (blocksMetadata b t.shape).largeAxes.length ≤ 2)
+    (hdiv : ∀ a ∈ (blocksMetadata b t.shape).largeAxes, b ∣ t.shape.getD a 0) :
+    (blockify t (blocksMetadata b t.shape)).shape = blockedShape (blocksMetadata b t.shape) ∧
+    ∀ s ∈ (blocksMetadata b t.shape).blockSizes, s ≤ b := by
+  refine ⟨blockify_shape_eq t b hb hle hdiv, ?_⟩
+  intro s hs
+  simp only [blocksMetadata, List.mem_map] at hs
+  obtain ⟨d, _, rfl⟩ := hs
+  exact Nat.min_le_right d b
+
+/-- **Tearfree blocks are contiguous sub-tensors.** For 0, 1 or 2 large axes (small axes before, between and
+after them), the entry at index `x` of `_blockify t` — block number `blk = x[blocks_axis]`, index inside the block
+`inner = x` without that coordinate — is the parameter entry at `tfBlockOffsets blk + inner`: the block's grid
+coordinates times the block size on the large axes, 0 on the small ones; and that index is in bounds. -/
+theorem blockify_block_contiguous {α} (t : Tensor α) (b : Nat) (hb : 0 < b)
+    (hle : (blocksMetadata b t.shape).largeAxes.length ≤ 2)
+    (hdiv : ∀ a ∈ (blocksMetadata b t.shape).largeAxes, b ∣ t.shape.getD a 0)
+    (x : List Nat) (hx : inBounds (blockedShape (blocksMetadata b t.shape)) x) :
+    (blockify t (blocksMetadata b t.shape)).get x =
+      t.get (addOff (tfBlockOffsets (blocksMetadata b t.shape) (x.getD (blocksMetadata b t.shape).blocksAxis 0))
+        (popAt x (blocksMetadata b t.shape).blocksAxis)) ∧
+    inBounds t.shape (unblockedIndex (blocksMetadata b t.shape) x) ∧
+    unblockedIndex (blocksMetadata b t.shape) x =
+      addOff (tfBlockOffsets (blocksMetadata b t.shape) (x.getD (blocksMetadata b t.shape).blocksAxis 0))
+        (popAt x (blocksMetadata b t.shape).blocksAxis) := by
+  obtain ⟨h1, h2⟩ := blockify_get_eq t b hb hle hdiv x hx
+  exact ⟨h1, h2, rfl⟩
+
+/-- **`_deblockify`, entry by entry**, for ANY array `X` of the blockified shape (not only outputs of `_blockify`):
+the parameter entry at `idx` is `X` at (block number of `idx`) inserted at the blocks axis into (index of `idx`
+inside its block). This is what entry-level statements about `deblockify ∘ f ∘ blockify` need. -/
+theorem deblockify_pointwise {α} (S : List Nat) (b : Nat) (hb : 0 < b)
+    (hle : (blocksMetadata b S).largeAxes.length ≤ 2)
+    (hdiv : ∀ a ∈ (blocksMetadata b S).largeAxes, b ∣ S.getD a 0)
+    (X : Tensor α) (hX : X.shape = blockedShape (blocksMetadata b S))
+    (idx : List Nat) (hi : inBounds S idx) :
+    (deblockify X (blocksMetadata b S)).get idx =
+      X.get (insertAt (innerIndexOf (blocksMetadata b S) idx) (blocksMetadata b S).blocksAxis
+        (blockIndexOf (blocksMetadata b S) idx)) ∧
+    inBounds X.shape (blockedIndex (blocksMetadata b S) idx) :=
+  deblockify_get_eq S b hb hle hdiv X hX idx hi
+
+/-- the two index maps undo each other: the block and inner index of a parameter entry lead back to it -/
+theorem unblocked_blocked_id (S : List Nat) (b : Nat) (hb : 0 < b)
+    (hle : (blocksMetadata b S).largeAxes.length ≤ 2)
+    (hdiv : ∀ a ∈ (blocksMetadata b S).largeAxes, b ∣ S.getD a 0)
+    (idx : List Nat) (hi : inBounds S idx) :
+    unblockedIndex (blocksMetadata b S) (blockedIndex (blocksMetadata b S) idx) = idx := by
+  -- read the round trip on the tensor of indices
+  let ti : Tensor (List Nat) := ⟨S, id⟩
+  have hE := deblockify_blockify_id ti b hle hdiv
+  have hi' : inBounds (deblockify (blockify ti (blocksMetadata b ti.shape)) (blocksMetadata b ti.shape)).shape idx := by
+    rw [hE.1]; exact hi
+  have hrt := hE.2 idx hi'
+  have hsh := blockify_shape_eq ti b hb hle hdiv
+  obtain ⟨h1, h2⟩ := deblockify_get_eq S b hb hle hdiv (blockify ti (blocksMetadata b S)) hsh idx
+    hi
+  rw [hsh] at h2
+  obtain ⟨h3, _⟩ := blockify_get_eq ti b hb hle hdiv _ h2
+  have : (deblockify (blockify ti (blocksMetadata b ti.shape)) (blocksMetadata b ti.shape)).get idx = idx := hrt
+  rw [show (blocksMetadata b ti.shape) = blocksMetadata b S from rfl] at this
+  rw [h1, h3] at this
+  exact this
+
 /-! ### non-vacuity: concrete instances meeting the hypotheses -/
 
 example : mergeSmallDims [1, 2, 512, 1, 2048, 1, 3, 4] 1024 = [1024, 2048, 12] := by decide
@@ -230,5 +383,13 @@ example : padDim 5 2 = 6 ∧ padDim 1 2 = 1 := by decide
 example : shouldCompress 1 4 = true ∧ precondDim 1 4 = 3 := by decide
 example : precondsForGrad .input 2 3 = [some 3, none] := by decide
 example : (blocksMetadata 2 [4, 3]).largeAxes = [0, 1] ∧ (blocksMetadata 3 [6, 2]).largeAxes = [0] ∧ 3 ∣ 6 := by decide
+
+example : blockOffsets [5, 3] 2 4 = [4, 0] ∧ blockDims [5, 3] 2 4 = [1, 2] ∧ blockCoords [5, 3] 2 4 = [2, 0] := by
+  decide
+example : locateBlock [5, 3] 2 [4, 1] = (4, [0, 1]) ∧ inBounds [5, 3] [4, 1] := ⟨by decide, by simp [inBounds]⟩
+example : blockedIndex (blocksMetadata 4 [8, 3, 8]) [5, 1, 6] = [3, 1, 1, 2] ∧
+    unblockedIndex (blocksMetadata 4 [8, 3, 8]) [3, 1, 1, 2] = [5, 1, 6] ∧
+    blockedShape (blocksMetadata 4 [8, 3, 8]) = [4, 4, 3, 4] ∧
+    (blocksMetadata 4 [8, 3, 8]).largeAxes = [0, 2] := by decide
 
 end PrecondVerif.C06
